@@ -1739,6 +1739,35 @@ def gen(repo):
         failed['EbrProtoW.v'] = str(ex)
     except (NameError, KeyError, UnboundLocalError) as ex:
         failed['EbrProtoW.v'] = 'depends on a part of the source that could not be translated (%s)' % ex
+    # ---------------- DeferredW.v : when Deferred::new stores a closure inline in its Data buffer
+    try:
+        dfn = get_fns(get_impl(deferred, r"impl\s+Deferred"))
+        if 'new' not in dfn:
+            raise TranslateError("Deferred::new not found")
+        body = _strip_macros(dfn['new'][2])
+        body = re.sub(r"(?:core\s*::\s*)?(?:mem\s*::\s*)?size_of\s*::\s*<\s*Data\s*>\s*\(\s*\)", "DATA_BYTES", body)
+        body = re.sub(r"(?:core\s*::\s*)?(?:mem\s*::\s*)?align_of\s*::\s*<\s*Data\s*>\s*\(\s*\)", "DATA_ALIGN", body)
+        body = re.sub(r"(?:core\s*::\s*)?(?:mem\s*::\s*)?size_of\s*::\s*<\s*F\s*>\s*\(\s*\)", "FSIZE", body)
+        body = re.sub(r"(?:core\s*::\s*)?(?:mem\s*::\s*)?align_of\s*::\s*<\s*F\s*>\s*\(\s*\)", "FALIGN", body)
+        body = re.sub(r"(?:core\s*::\s*)?(?:mem\s*::\s*)?size_of\s*::\s*<\s*usize\s*>\s*\(\s*\)", "8", body)
+        conds = [c_ for k_, c_ in proto_conds(body) if k_ == 'cond']
+        if not conds:
+            raise TranslateError("Deferred::new: the inline/boxed decision was not found")
+        emd2 = Emitter({'DATA_WORDS': 'usize'}, {}, 'usize', [])
+        for name, exprs in proto_lets(body).items():
+            if len(exprs) == 1 and '{' not in exprs[0] and 'uninit' not in exprs[0] and 'Box' not in exprs[0] and 'ptr::' not in exprs[0]:
+                emd2.lazy_lets[name] = exprs[0]
+        envd2 = {'FSIZE': 'usize', 'FALIGN': 'usize', 'DATA_BYTES': 'usize', 'DATA_ALIGN': 'usize',
+                 '$val:FSIZE': 'size', '$val:FALIGN': 'align', '$val:DATA_BYTES': '(8 * DATA_WORDS)', '$val:DATA_ALIGN': '8'}
+        v, _ = emd2.emit(P(tokenize(conds[0])).parse_expr(), envd2, 'bool')
+        d = HEADER % "src/ebr_impl/deferred.rs (Deferred::new: inline or boxed)" + "Require Import Params.\n\n"
+        d += "(* `if %s` : the closure (of `size` bytes, alignment `align`) is written into the %s-word Data buffer;\n   otherwise it is boxed.  size_of::<Data>() = 8 * DATA_WORDS, align_of::<Data>() = 8 on the 64-bit targets modelled *)\n" % (" ".join(conds[0].split()), 'DATA_WORDS')
+        d += "Definition stored_inline (size align : Z) : bool :=\n  %s.\n" % v
+        files['DeferredW.v'] = d
+    except TranslateError as ex:
+        failed['DeferredW.v'] = str(ex)
+    except (NameError, KeyError, UnboundLocalError) as ex:
+        failed['DeferredW.v'] = 'depends on a part of the source that could not be translated (%s)' % ex
     # ---------------- GuardCallsW.v : the order in which the guard / handle functions call the modelled primitives
     try:
         guard_src = rd('src/ebr_impl/guard.rs')
